@@ -4,6 +4,7 @@ import LyModel.Generated.FnIff
 import LyModel.Generated.FnHt
 import LyModel.Generated.FnLyb
 import LyModel.Generated.FnPrint
+import LyModel.Generated.FnJson
 /-! Driver ops of component `fn`: the definitions GENERATED from the C source by `tools/c2lean.py`, executed on the
 request lines that `harness/wb_fn.c` feeds to the real functions (validation of the translator). -/
 namespace LyModel.Fn.Drv
@@ -65,6 +66,12 @@ def handle (op : String) (args : List String) : String :=
       let r := Fn.json_print_string [] t
       s!"ok {r.ret} {Hex.enc r.out}"
     | none => "err BadArg"
+  | "uhex", [h, v0] =>
+    match Hex.dec h, u32? v0 with
+    | some t, some v0 =>
+      let r := Fn.lyjson_string__u t 0 v0
+      s!"ok {r.ret} {r.value_out}"
+    | _, _ => "err BadArg"
   | "fixedsize", [n] =>
     match u32? n with
     | some n => s!"ok {Fn.lyht_get_fixed_size n}"
